@@ -192,15 +192,18 @@ theorem validDiagonal_ring4_of_index_eq (v : Nat → V2 α) (k0 k1 k2 k3 : Node)
   rw [validDiagonal_ring4]
   rcases h with h | h | h <;> simp [h]
 
-/-- TIE: the node found by the hand `leftmostPos` (`_get_leftmost`: first node of minimal `x`
-from the head) on the ring `k0 → k1 → k2` has the coordinates returned by the generated
-`earcut_get_leftmost_3` (`triangulation._get_leftmost(n0)`). -/
+/-- The hand model's update test is the lexicographic test of the shape lemmas. -/
+theorem leftOf_iff_lexLt (p b : V2 α) : leftOf p b ↔ lexLt p b := Iff.rfl
+
+/-- TIE: the node found by the hand `leftmostPos` (`_get_leftmost`: first node, from the head,
+of minimal `x`, ties by smaller `y`) on the ring `k0 → k1 → k2` has the coordinates returned
+by the generated `earcut_get_leftmost_3` (`triangulation._get_leftmost(n0)`). -/
 theorem leftmost_ring3_eq_gen [IsStrictOrderedRing α] (v : Nat → V2 α) (k0 k1 k2 : Node) :
     v (nodeAt [k0, k1, k2] (leftmostPos v [k0, k1, k2])).i =
       earcut_get_leftmost_3 (v k0.i) (v k1.i) (v k2.i) := by
   have hl : leftmostPos v [k0, k1, k2] =
-      (let s1 : Nat × α := if (v k1.i).x < (v k0.i).x then (1, (v k1.i).x) else (0, (v k0.i).x)
-       let s2 : Nat × α := if (v k2.i).x < s1.2 then (2, (v k2.i).x) else s1
+      (let s1 : Nat × V2 α := if lexLt (v k1.i) (v k0.i) then (1, v k1.i) else (0, v k0.i)
+       let s2 : Nat × V2 α := if lexLt (v k2.i) s1.2 then (2, v k2.i) else s1
        s2.1) := by
     have hr : List.range ([k0, k1, k2] : Ring).length = [0, 1, 2] := rfl
     unfold leftmostPos
@@ -208,12 +211,14 @@ theorem leftmost_ring3_eq_gen [IsStrictOrderedRing α] (v : Nat → V2 α) (k0 k
     have e0 : nodeAt [k0, k1, k2] 0 = k0 := rfl
     have e1 : nodeAt [k0, k1, k2] 1 = k1 := rfl
     have e2 : nodeAt [k0, k1, k2] 2 = k2 := rfl
-    simp only [e0, e1, e2, lt_irrefl, if_false]
+    simp only [e0, e1, e2, leftOf_iff_lexLt, lexLt_self, if_false]
   rw [hl]
   have key := leftmost3_shape (fun k => v (nodeAt [k0, k1, k2] k).i)
-    (v k0.i).x (v k1.i).x (v k2.i).x
+    (v k0.i) (v k1.i) (v k2.i)
   simp only [] at key ⊢
   rw [key]
+  unfold earcut_get_leftmost_3
+  simp only [ite_lex]
   rfl
 
 /-- TIE: the same on a ring of four nodes: generated `earcut_get_leftmost_4`. -/
@@ -221,9 +226,9 @@ theorem leftmost_ring4_eq_gen [IsStrictOrderedRing α] (v : Nat → V2 α) (k0 k
     v (nodeAt [k0, k1, k2, k3] (leftmostPos v [k0, k1, k2, k3])).i =
       earcut_get_leftmost_4 (v k0.i) (v k1.i) (v k2.i) (v k3.i) := by
   have hl : leftmostPos v [k0, k1, k2, k3] =
-      (let s1 : Nat × α := if (v k1.i).x < (v k0.i).x then (1, (v k1.i).x) else (0, (v k0.i).x)
-       let s2 : Nat × α := if (v k2.i).x < s1.2 then (2, (v k2.i).x) else s1
-       let s3 : Nat × α := if (v k3.i).x < s2.2 then (3, (v k3.i).x) else s2
+      (let s1 : Nat × V2 α := if lexLt (v k1.i) (v k0.i) then (1, v k1.i) else (0, v k0.i)
+       let s2 : Nat × V2 α := if lexLt (v k2.i) s1.2 then (2, v k2.i) else s1
+       let s3 : Nat × V2 α := if lexLt (v k3.i) s2.2 then (3, v k3.i) else s2
        s3.1) := by
     have hr : List.range ([k0, k1, k2, k3] : Ring).length = [0, 1, 2, 3] := rfl
     unfold leftmostPos
@@ -232,12 +237,14 @@ theorem leftmost_ring4_eq_gen [IsStrictOrderedRing α] (v : Nat → V2 α) (k0 k
     have e1 : nodeAt [k0, k1, k2, k3] 1 = k1 := rfl
     have e2 : nodeAt [k0, k1, k2, k3] 2 = k2 := rfl
     have e3 : nodeAt [k0, k1, k2, k3] 3 = k3 := rfl
-    simp only [e0, e1, e2, e3, lt_irrefl, if_false]
+    simp only [e0, e1, e2, e3, leftOf_iff_lexLt, lexLt_self, if_false]
   rw [hl]
   have key := leftmost4_shape (fun k => v (nodeAt [k0, k1, k2, k3] k).i)
-    (v k0.i).x (v k1.i).x (v k2.i).x (v k3.i).x
+    (v k0.i) (v k1.i) (v k2.i) (v k3.i)
   simp only [] at key ⊢
   rw [key]
+  unfold earcut_get_leftmost_4
+  simp only [ite_lex]
   rfl
 
 /-! ### The instances exactly as generated: `node.i` = position, table = the point list -/
@@ -345,6 +352,11 @@ example : earcut_is_valid_diagonal_4 (⟨0, 0⟩ : V2 ℚ) ⟨4, 0⟩ ⟨5, 3⟩
     validDiagonal (tab [(⟨0, 0⟩ : V2 ℚ), ⟨4, 0⟩, ⟨5, 3⟩, ⟨1, 2⟩]) [nd 0, nd 1, nd 2, nd 3] 2 = true ∧
     earcut_is_valid_diagonal_4 (⟨0, 0⟩ : V2 ℚ) ⟨2, 1⟩ ⟨4, 0⟩ ⟨2, 4⟩ = false := by
   decide +kernel
+
+/-- Ties in `x` are broken by the smaller `y` wherever the lower point sits in the ring (the
+upstream rule; before the repair the first of the two was returned). -/
+example : earcut_get_leftmost_3 (⟨1, 7⟩ : V2 ℚ) ⟨1, 5⟩ ⟨2, 2⟩ = ⟨1, 5⟩ ∧
+    earcut_get_leftmost_4 (⟨3, 0⟩ : V2 ℚ) ⟨1, 7⟩ ⟨2, 2⟩ ⟨1, 5⟩ = ⟨1, 5⟩ := by decide +kernel
 
 example : earcut_get_leftmost_4 (⟨3, 0⟩ : V2 ℚ) ⟨1, 5⟩ ⟨1, 7⟩ ⟨2, 2⟩ = ⟨1, 5⟩ ∧
     earcut_middle_inside_3 (⟨0, 0⟩ : V2 ℚ) ⟨4, 0⟩ ⟨0, 4⟩ ⟨2, 2⟩ = true := by decide +kernel
